@@ -463,6 +463,12 @@ func (e *Eng) ghostInit(g GhostDecl, st *State, symbolic bool) Val {
 		v = mk(KBool, "Bool", "false", types.Typ[types.Bool])
 	case g.Type == "int":
 		v = mk(KInt, "Int", "0", types.Typ[types.Int])
+	case g.Type == "byte":
+		if e.bv {
+			v = mk(KInt, "(_ BitVec 8)", "(_ bv0 8)", types.Typ[types.Uint8])
+		} else {
+			v = mk(KInt, "Int", "0", types.Typ[types.Uint8])
+		}
 	case g.Type == "string":
 		v = mk(KStr, "Str", "str.empty", types.Typ[types.String])
 	case g.Type == "ref":
@@ -527,7 +533,11 @@ func (e *Eng) freshGhost(name string, old Val, st *State) Val {
 	case KStr:
 		n.T = e.newSym("ghost."+name, "Str")
 	default:
-		n.T = e.newSym("ghost."+name, "Int")
+		if e.bv && old.GoT == types.Typ[types.Uint8] {
+			n.T = e.newSym("ghost."+name, "(_ BitVec 8)")
+		} else {
+			n.T = e.newSym("ghost."+name, "Int")
+		}
 	}
 	return n
 }
